@@ -54,6 +54,7 @@ def parseAct : List String → Option Act
   | ["bclose", sid] => do pure (.bclose (← parseNat sid))
   | ["hexit", sid] => do pure (.hexit (← parseNat sid))
   | ["crst", sid] => do pure (.crst (← parseNat sid))
+  | ["shutdown", sid] => do pure (.shutdown (← parseNat sid))
   | ["quiesce"] => some .quiesce
   | _ => none
 
